@@ -8,6 +8,7 @@ import (
 	"strings"
 	"sync"
 	"syscall"
+	"time"
 	"unsafe"
 
 	"verif.local/simrt"
@@ -194,6 +195,23 @@ func (k *K2) Run(estYields, maxChanges int) {
 	}
 	simrt.YieldFn = k.yield
 	simrt.LockFn = k.lockDelta
+	// A heartbeat for the Go scheduler, not for the schedule: tasks hand over through raw blocking system calls, and on
+	// a heavily loaded machine a task returning from one was seen to sit runnable until the next timer of the process
+	// fired (the 30 s request timeout of the code under test, which then expired inside the run).  The ticker touches
+	// nothing the tasks or the scheduler share and decides nothing.
+	heartbeat := make(chan struct{})
+	go func() {
+		tk := time.NewTicker(2 * time.Millisecond)
+		defer tk.Stop()
+		for {
+			select {
+			case <-tk.C:
+			case <-heartbeat:
+				return
+			}
+		}
+	}()
+	defer close(heartbeat)
 	for _, t := range k.tasks {
 		t := t
 		wg.Add(1)
